@@ -30,7 +30,7 @@ def run_op(convs, op):
 
     tag, arg = op
     if tag == 0:
-        return curies.chain(convs, case_sensitive=bool(arg))
+        return curies.chain(convs, **qprops.flags(case_sensitive=bool(arg)))
     if tag == 1:
         return convs[0].get_subconverter(list(arg))
     m = dict(map(tuple, arg))
@@ -504,10 +504,10 @@ class C10(DerivePlugin):
             p, u, ps, us, pat = rec
             try:
                 if ap:
-                    R.add_prefix(p, u, list(ps), list(us), case_sensitive=bool(cs), merge=bool(mg))
+                    R.add_prefix(p, u, list(ps), list(us), **qprops.flags(case_sensitive=bool(cs), merge=bool(mg)))
                 else:
                     R.add_record(curies.Record(prefix=p, uri_prefix=u, prefix_synonyms=list(ps), uri_prefix_synonyms=list(us),
-                                               pattern=pat.v if pat else None), case_sensitive=bool(cs), merge=bool(mg))
+                                               pattern=pat.v if pat else None), **qprops.flags(case_sensitive=bool(cs), merge=bool(mg)))
             except Exception:
                 pass
             steps.append(flags())
